@@ -128,7 +128,11 @@ pub fn input_for(prop: &str, tier: Tier, seed: u64, idx: u64, sub: u64) -> (Stri
     // 10^4, 2^15 ... (positions flow into tokens, spans and every error message)
     let mut rng = Rng::for_case(seed, &format!("front-pad-{prop}"), idx * BATCH + sub);
     if prop != "C07" && idx * BATCH + sub > 400 && rng.below(40) == 0 {
-        return (format!("{class}+padded"), format!("{}{}", gtext::position_padding(&mut rng), text));
+        let padded = format!("{}{}", gtext::position_padding(&mut rng), text);
+        // (C07 is stated for sources up to 64 KiB)
+        if !prop.starts_with("C07") || padded.len() <= super::stress::MAX_BYTES {
+            return (format!("{class}+padded"), padded);
+        }
     }
     (class, text)
 }
@@ -199,14 +203,15 @@ fn input_for_unpadded(prop: &str, tier: Tier, seed: u64, idx: u64, sub: u64) -> 
             }
         }
         "C09" | "C07-parse" => {
-            if n > 300 && rng.below(1500) == 0 {
+            if prop == "C09" && n > 300 && rng.below(1500) == 0 {
                 // tens of thousands of tokens, then an error (or the end of the file) – token
                 // counts and positions beyond 2^16 without the cost of a huge automaton
                 let k = *rng.pick(&[21_840usize, 21_850, 32_770, 65_530, 65_540, 70_000]);
                 let body = match rng.below(3) {
                     0 => format!("start S\nstruct S(\n{}", "$A ".repeat(k)),
-                    1 => format!("start S\nenum S {{\n{}", "V($A)\n".repeat(k / 4)),
-                    _ => format!("start S\nterminal T {{\n{}", "$A: a::b<c>\n".repeat(k / 8)),
+                    // (distinct names: the reference validator lists *all* clashing pairs)
+                    1 => format!("start S\nenum S {{\n{}", (0..k / 4).map(|i| format!("V{i}($A)\n")).collect::<String>()),
+                    _ => format!("start S\nterminal T {{\n{}", (0..k / 8).map(|i| format!("$A{i}: a::b<c>\n")).collect::<String>()),
                 };
                 let tail = rng.pick_str(&["", "<", ")", "}", "start", "$B:", "_", "#[x]", "::", ","]);
                 return ("long-file-with-late-error".into(), format!("{body}{tail}"));
@@ -486,6 +491,11 @@ impl Front {
             return;
         };
         let present = rvalidate::violations(&items);
+        if present.contains(&rvalidate::Violation::TooMany) {
+            // the reference list is incomplete: nothing can be decided on it
+            w.count("skipped:reference-enumeration-cut-off");
+            return;
+        }
         let (out, _) = kside::generate(text, 50_000_000);
         // blame assignment: the front end must have agreed that the file is syntactically valid
         match &out {
@@ -540,6 +550,11 @@ impl Front {
     }
 
     fn c07(&self, w: &mut Worker, class: &str, text: &str) {
+        if text.len() > super::stress::MAX_BYTES {
+            // outside the bounds the property is stated for
+            w.count("not-applicable:source-larger-than-64KiB");
+            return;
+        }
         // step limit from the reference model when the text is a well-formed grammar
         let mut limit: u64 = 50_000_000;
         let mut well_formed = false;
